@@ -230,3 +230,97 @@ def dominating_conditions(fn, parents: dict, node) -> list:
             break
         cur = par
     return out
+
+
+# ----------------------------------------------------------------------------------------------------------------------------------
+# per-call state of a long-lived parser object ends with the call (C10.R11 = C02.R13)
+
+class _FeedSem(Semantics):
+    """State = frozenset of attributes of self that currently hold a per-call value the NEXT call would build on."""
+
+    def __init__(self, dirty_stores: dict, restores: set):
+        self.dirty_stores = dirty_stores  # id(Assign node) -> attribute
+        self.restores = restores  # id(Assign node) of stores whose value mentions no local
+
+    def after_stmt(self, ex, fn, node, state):
+        if isinstance(node, ast.Assign):
+            if id(node) in self.dirty_stores:
+                return frozenset(state | {self.dirty_stores[id(node)]})
+            if id(node) in self.restores:
+                gone = {norm(t).split('.', 1)[1] for t in node.targets if norm(t).startswith('self.')}
+                return frozenset(state - gone)
+        return state
+
+
+def per_call_state_ends_with_the_call(a: Analysis, rule_id: str) -> RuleReport:
+    from .frames import classify_exc, generic_hole
+    rep = RuleReport(
+        rule_id,
+        'what one parse() sets on a long-lived parser object does not leak into the next one: an attribute of the parser whose per-call '
+        'value bound() DERIVES FROM ITS OWN PREVIOUS VALUE (self.config -> _active_config: the per-call configuration is built by '
+        'overriding the active one) is stored back from the object\'s own defaults on EVERY exit of bound() - normal, failed parse, any '
+        'other exception raised by the parse or by a semantic action [paths: state = attributes holding a self-fed per-call value]. '
+        'Otherwise the settings of one call (start=, ignorecase=, whitespace=, semantics=, parseinfo= ...) become the defaults of every '
+        'later call on a generated parser object, which the model (a fresh context per parse) never shows',
+        floor=4,
+    )
+    eng = a.p.func('tatsu.contexts.engine.ParserEngine.bound')
+    cls_q = eng.cls.qualname if eng.cls else None
+    # properties / methods of the class that just hand out an attribute: self.config -> _active_config
+    hands_out: dict[str, str] = {}
+    for q in (a.ct.mro(cls_q) if cls_q else ()):
+        ci = a.p.classes.get(q)
+        if ci is None:
+            continue
+        for name, m in ci.methods.items():
+            body = [s for s in m.node.body if not (isinstance(s, ast.Expr) and isinstance(s.value, ast.Constant))]
+            if len(body) == 1 and isinstance(body[0], ast.Return) and body[0].value is not None and norm(body[0].value).startswith('self.') \
+                    and norm(body[0].value).count('.') == 1:
+                hands_out.setdefault(name, norm(body[0].value).split('.', 1)[1])
+    # def-use of the straight-line code of bound(): which locals depend on which attributes of self
+    dep: dict[str, set] = {}
+
+    def attrs_read(e: ast.AST) -> set:
+        out = set()
+        for n in ast.walk(e):
+            if isinstance(n, ast.Attribute) and isinstance(n.ctx, ast.Load) and norm(n.value) == 'self':
+                out.add(hands_out.get(n.attr, n.attr))
+            elif isinstance(n, ast.Name) and isinstance(n.ctx, ast.Load) and n.id in dep:
+                out |= dep[n.id]
+        return out
+
+    def locals_read(e: ast.AST) -> set:
+        return {n.id for n in ast.walk(e) if isinstance(n, ast.Name) and isinstance(n.ctx, ast.Load) and n.id != 'self'}
+    dirty: dict[int, str] = {}
+    restores: set[int] = set()
+    params = set(eng.params) | ({eng.node.args.kwarg.arg} if eng.node.args.kwarg else set()) | ({eng.node.args.vararg.arg} if eng.node.args.vararg else set())
+    from ..loader import _ordered
+    for n in _ordered(eng.node):
+        if isinstance(n, ast.Assign):
+            for t in n.targets:
+                if isinstance(t, ast.Name):
+                    dep[t.id] = dep.get(t.id, set()) | attrs_read(n.value)
+                elif isinstance(t, ast.Attribute) and norm(t.value) == 'self':
+                    if t.attr in attrs_read(n.value) and (locals_read(n.value) & (params | set(dep))):
+                        dirty[id(n)] = t.attr
+                    elif not (locals_read(n.value) & (params | set(dep))):
+                        restores.add(id(n))
+    fed = sorted(set(dirty.values()))
+    rep.add({'function': eng.qualname, 'self_fed_attributes': fed, 'handed_out_by': {k: v for k, v in hands_out.items() if v in fed}})
+    if not fed:
+        rep.notes.append('bound() derives no attribute of the parser from its own previous value: nothing of one call can feed the next')
+    ex = Executor(a.p, a.ct, a.resolver, _FeedSem(dirty, restores), raises=a.raises)
+    outs = ex.run(eng, frozenset(), hole=generic_hole)
+    seen = set()
+    for o in outs:
+        kind = 'normal' if o.kind in ('return', 'next') else f'raise:{classify_exc(a, o.exc) if o.exc else "?"}'
+        key = (kind, tuple(sorted(o.state)))
+        if key in seen:
+            continue
+        seen.add(key)
+        rep.add({'exit_of_bound': kind, 'raised_at': (o.exc.origin if o.exc else None), 'attributes_still_holding_the_call\'s_value': sorted(o.state)})
+        for attr in sorted(o.state):
+            rep.fail(eng.qualname, f'per-call-state-leaks:{attr}:{kind}', f'an exit of bound() ({kind}' + (f', raised at {o.exc.origin}' if o.exc and o.exc.origin else '') +
+                     f') leaves self.{attr} holding the value built for THIS call, and the next call builds its own value from it: per-call settings persist on a reused '
+                     f'parser object (after ' + ('a parse that raised' if kind != 'normal' else 'a completed parse') + ')', eng.loc)
+    return rep
